@@ -13,7 +13,7 @@ PROP = dict(
           "BasicImport, merge of a remote commit) x prior databases (plain, indexed incl. unique, with a concurrent remote commit; more and larger in the thorough tier); "
           "for each pair the number K of storage operations of the fault-free run is measured and EVERY k in 1..K is run on a byte-identical copy of the prior store "
           "with the k-th operation (get/has/set/delete/iterator/next/value/seek/commit) failing; the whole key space is compared byte for byte with the prior "
-          "(on error) or with the fault-free result (on success), and the update events on the bus are counted; a case is one (prior, operation, k); all are distinct and non-trivial"),
+          "(on error) or with the fault-free result (on success), and the update events on the bus are counted; a case is one (prior, operation, k); all are distinct and non-trivial; after a faulted index operation the indexes listed by the collection handle the call was made through are compared with those of a handle fetched afterwards"),
     assumptions=[
         "a storage operation that fails has no effect and a failed commit leaves nothing behind (torn writes inside Badger are out of scope)",
         "single faults per call in the quick tier (the theorems cover any number of faults)",
